@@ -204,7 +204,7 @@ class WireSpec(Spec):
         if n & {"in1+", "in1-"}: g.append("bulk-in-data")
         if n & {"in2+", "in2-"}: g.append("status-in-data")
         if any(x.startswith("o1") for x in n): g.append("bulk-out-acked")
-        if n & {"c-stall"} and any(x.startswith("o1") and not x.endswith(".0") for x in n): g.append("bulk-out-naked")
+        if "p-off" in n and n & {"in1+", "in1-"}: g.append("nak-decoded")
         if any(x.startswith("o-") for x in n): g.append("other-address-traffic")
         if self.noisy: g.append("bus-error-injected")
         return g
@@ -271,7 +271,6 @@ class WireSpec(Spec):
             if ep == 1 and resp is not None:
                 c = U.classify_device_packet(resp)
                 if c == ("hs", U.ACK): self.cover["bulk-out-acked"] += 1
-                if c == ("hs", U.NAK): self.cover["bulk-out-naked"] += 1
         elif k == "other":
             # traffic between the host and another device on the same bus: this device sees the host's packets only
             if a[1] in ("in", "in+ack"):
@@ -296,6 +295,7 @@ class WireSpec(Spec):
             if c[0] == "hs":
                 self.cover["handshake-decoded"] += 1
                 if c[1] == U.STALL: self.cover["stall-decoded"] += 1
+                if c[1] == U.NAK: self.cover["nak-decoded"] += 1
             else:
                 self.cover["data-packet-decoded"] += 1
         if host.n_forks > forks0: self.cover["tx-ready-forks"] += host.n_forks - forks0
